@@ -171,6 +171,28 @@ func EvalCons(c Conf) []ConsViolation {
 				add("must", fmt.Sprintf("/cons/ref[name=%s]/needkind", n), "", "svc %q kind=%q", nk, svc[nk]["kind"])
 			}
 		}
+		if v, ok := ref[n]["viasvc"]; ok {
+			// leafref /cons/svc[name=current()/../svcname]/kind: some instance must carry the value
+			sn, has := ref[n]["svcname"]
+			if k, kok := svc[sn]["kind"]; !has || !kok || k != v {
+				add("leafref", fmt.Sprintf("/cons/ref[name=%s]/viasvc", n), "", "svcname=%q(%v) kind=%q want %q", sn, has, k, v)
+			}
+		}
+		if w, ok := ref[n]["wref"]; ok {
+			// must ../../svc[name=current()]/weight = 5 (weight has the schema default 5)
+			e, exists := svc[w]
+			wt, set := e["weight"]
+			if !exists || (set && wt != "5") {
+				add("must", fmt.Sprintf("/cons/ref[name=%s]/wref", n), "", "svc %q exists=%v weight=%q", w, exists, wt)
+			}
+		}
+		if _, ok := ref[n]["chk"]; ok {
+			_, a := ref[n]["svcname"]
+			_, b := ref[n]["soft"]
+			if !a && !b {
+				add("must", fmt.Sprintf("/cons/ref[name=%s]/chk", n), "", "neither svcname nor soft")
+			}
+		}
 	}
 	grp := entries("grp")
 	for _, n := range sortedNames(grp) {
